@@ -67,6 +67,9 @@ Diverges == Ev.op \in ClientOps /\ (Design # Post \/ Ev.ret.k \in {"raise", "exi
 BadDir(P(_)) == CHOOSE d \in Dirs : P(d)
 RhsmTag(s)   == IF HasRhsm(s) THEN s.rhsm ELSE "absent"
 DirTag(s)    == IF Exists(s, "main") THEN "maindir=present" ELSE "maindir=absent"
+(* Unregister has two entry points: write_unregistered_file() and            *)
+(* write_unregistered_file(date) (event field k = "dated"); same requirement *)
+OpTag(a) == a.op \o (IF a.op = "Unregister" /\ a.k = "dated" THEN "(date)" ELSE "")
 Diagnose ==
     LET a == A(Ev)  t == Post IN
     IF Ev.op = "PlantSymlink" THEN "ENV:plant-mismatch"
@@ -74,15 +77,15 @@ Diagnose ==
     ELSE IF ~MarkersExclusive(st, a, t) THEN
         (LET d == IF a.op \in {"Register", "Unregister"} THEN BadDir(LAMBDA x : Exists(t, x) /\ Both(t, x))
                   ELSE BadDir(LAMBDA x : Both(t, x) /\ ~Both(st, x))
-         IN "MarkersExclusive:" \o a.op \o ":before-reg=" \o st.reg[d] \o ":before-unreg=" \o st.unreg[d])
+         IN "MarkersExclusive:" \o OpTag(a) \o ":before-reg=" \o st.reg[d] \o ":before-unreg=" \o st.unreg[d])
     ELSE IF ~LinkReplaced(st, a, t) THEN
         (LET mine == IF a.op = "Register" THEN "reg" ELSE "unreg"
              d == BadDir(LAMBDA x : Exists(st, x) /\ IsLink(MarkOf(st, mine)[x]) /\ MarkOf(t, mine)[x] # "file")
-         IN "LinkReplaced:" \o a.op \o ":before=" \o MarkOf(st, mine)[d] \o ":after=" \o MarkOf(t, mine)[d])
+         IN "LinkReplaced:" \o OpTag(a) \o ":before=" \o MarkOf(st, mine)[d] \o ":after=" \o MarkOf(t, mine)[d])
     ELSE IF ~NotFollowed(st, a, t) THEN
         (LET d == BadDir(LAMBDA x : t.tgt[x] # st.tgt[x])
              m == CHOOSE m \in Marks : t.tgt[d][m] # st.tgt[d][m]
-         IN "NotFollowed:" \o a.op \o ":" \o m \o "=" \o MarkOf(st, m)[d] \o
+         IN "NotFollowed:" \o OpTag(a) \o ":" \o m \o "=" \o MarkOf(st, m)[d] \o
             ":target-live=" \o t.tgt[d][m].live \o ":target-dead=" \o t.tgt[d][m].dead)
     ELSE IF ~IdCanonical(st, a, t) THEN
         "IdCanonical:" \o a.op \o ":returned=" \o a.ret.k \o ":file=" \o st.idf.form \o ":rhsm=" \o RhsmTag(st)
